@@ -104,6 +104,9 @@ def run(ctx):
     R_WF = ctx.rule("C02.writefalse", "no constant `false` is returned on a path on which *self has definitely been assigned to", floor=14)
     R_WT = ctx.rule("C02.writetrue", "no constant `true` is returned on a path on which nothing can have mutated *self", floor=14)
     R_LEN = ctx.rule("C02.lenpair", "length-derived flags: the old len() is read before every mutation of self and the new len() after every mutation", floor=3)
+    R_DIR = ctx.rule("C02.strict", "Max / Min report a change exactly on the strict comparison edge (equal values are no change)", floor=2)
+    from lattice_common import ord_direction_rule
+    ord_direction_rule(ctx, c, R_DIR)
     merges = lattice_impls(c, {"lattices::Merge"}, include_ght=True)
     for imp in merges:
         b = c.impl_method(imp, "merge")
